@@ -297,7 +297,9 @@ static pid_t process_fork(const int *except, size_t num_except)
 
 finish:
   if (r < 0) {
-    (void) !write(pipe.write, &errno, sizeof(errno));
+    // Report `r` and not `errno` as not every error above comes from `errno`.
+    int error = -r;
+    (void) !write(pipe.write, &error, sizeof(error));
     _exit(EXIT_FAILURE);
   }
 
@@ -434,7 +436,8 @@ int process_start(pid_t *process,
 
   child:
     if (r < 0) {
-      (void) !write(pipe.write, &errno, sizeof(errno));
+      int error = -r;
+      (void) !write(pipe.write, &error, sizeof(error));
       _exit(EXIT_FAILURE);
     }
 
